@@ -353,7 +353,7 @@ pub fn run(ctx: &RunCtx) -> i32 {
         exhaustive: false,
     };
     let secrets = secrets(ctx.seed);
-    let n_base = ctx.tier.sz(400, 20_000);
+    let n_base = ctx.tier.sz(4000, 300_000);
     let per = 10u64;
     let total = par_run(ctx.workers, n_base.div_ceil(per), |j, r| {
         let rt = new_runtime();
